@@ -19,6 +19,18 @@ structure NodeOk (lib : List Cls) (sg : SGraph) (n : Nat) : Prop where
 /-- reachable from one of the roots through values, task link, pre-tasks, init tasks -/
 def Needed (g : Graph) (roots : List Nat) (n : Nat) : Prop := ∃ r ∈ roots, Reach (succAll g) r n
 
+/-- the configurations occurring in the declared defaults of the needed configurations are themselves
+    needed, i.e. written with them.  Vacuous when no declared default contains a configuration object.
+    (In the model a default object is a node of the graph; `toGraph` leaves an empty node at every id that
+    was not loaded, whereas in the real code the default objects live in the class and survive the reload:
+    the identifier recomputed after a reload compares values with them.) -/
+def DefaultsNeeded (g : Graph) (roots : List Nat) : Prop :=
+  ∀ n, Needed g roots n → ∀ m ∈ nodeDfltRefs (g.node n), Needed g roots m
+
+theorem DefaultsNeeded.of_no_refs {g : Graph} {roots : List Nat}
+    (h : ∀ n, Needed g roots n → nodeDfltRefs (g.node n) = []) : DefaultsNeeded g roots := by
+  intro n hn m hm; rw [h n hn] at hm; cases hm
+
 /-! ### value level round trip -/
 
 theorem lookupJ_none_of_not_mem (k : List Nat) : ∀ (ks : List (List Nat)) (vs : List JVal),
@@ -409,14 +421,15 @@ theorem reload_fullId {D : Type} (hc : HC D) (fl : Flags) (lib : List Cls) (sg :
     (hwf : WF sg.g) (hr : root < sg.g.size)
     (hok : ∀ n, Needed sg.g [root] n → NodeOk lib sg n)
     (hm : (fl.metaWriteAll = true ∧ fl.metaReadAll = true) ∨ ∀ n, Needed sg.g [root] n → (sg.g.node n).mflag ≠ some false)
-    (hi : fl.initRestored = true ∨ ∀ n, Needed sg.g [root] n → (sg.g.node n).initTasks = []) :
+    (hi : fl.initRestored = true ∨ ∀ n, Needed sg.g [root] n → (sg.g.node n).initTasks = [])
+    (hdn : DefaultsNeeded sg.g [root]) :
     ∃ L, fromParameters fl lib (serialize fl lib sg [root]) = .ok (L, root) ∧
       fullId hc (toGraph L sg.g.size) root = fullId hc sg.g root := by
   obtain ⟨L, hL, _, hlook⟩ := fromParameters_serialize fl lib sg root hwf hr hok
   obtain ⟨_, hiff, hlt, hcl⟩ := serialOrder_spec sg.g [root] hwf (by simpa using hr)
   refine ⟨L, hL, ?_⟩
   apply fullId_congr_on hc sg.g (toGraph L sg.g.size) (fun n => n ∈ serialOrder sg.g [root])
-    (toGraph_size L _).symm hcl
+    (toGraph_size L _).symm hcl (fun n hn m hm => (hiff m).2 (hdn n ((hiff n).1 hn) m hm))
   · intro n hn
     have hN := (hiff n).1 hn
     rw [toGraph_node L _ n (hlt n hn), hlook n hn]
@@ -428,5 +441,41 @@ theorem reload_fullId {D : Type} (hc : HC D) (fl : Flags) (lib : List Cls) (sg :
       · exact Or.inl hi
       · exact Or.inr (hi n hN)
   · exact (hiff root).2 ⟨root, List.mem_singleton.2 rfl, Reach.refl root⟩
+
+/-- the same when the default objects are *not* written but kept (as the real code does: they live in the
+    class library): `g'` holds the loaded object at every needed id, and — up to `sealed` — the original node on
+    a set `S` that contains the needed configurations and is closed under references and declared defaults. -/
+theorem reload_fullId_defaults_kept {D : Type} (hc : HC D) (fl : Flags) (lib : List Cls) (sg : SGraph) (root : Nat)
+    (hwf : WF sg.g) (hr : root < sg.g.size)
+    (hok : ∀ n, Needed sg.g [root] n → NodeOk lib sg n)
+    (hm : (fl.metaWriteAll = true ∧ fl.metaReadAll = true) ∨ ∀ n, Needed sg.g [root] n → (sg.g.node n).mflag ≠ some false)
+    (hi : fl.initRestored = true ∨ ∀ n, Needed sg.g [root] n → (sg.g.node n).initTasks = [])
+    (S : Nat → Prop) (hS : ∀ n, Needed sg.g [root] n → S n)
+    (hclosed : ∀ n, S n → ∀ m ∈ succAll sg.g n, S m)
+    (hdflt : ∀ n, S n → ∀ m ∈ nodeDfltRefs (sg.g.node n), S m) :
+    ∃ L, fromParameters fl lib (serialize fl lib sg [root]) = .ok (L, root) ∧
+      ∀ g' : Graph, g'.size = sg.g.size →
+        (∀ n, Needed sg.g [root] n → g'.node n = (toGraph L sg.g.size).node n) →
+        (∀ n, S n → ¬ Needed sg.g [root] n → NodeSame (sg.g.node n) (g'.node n)) →
+        fullId hc g' root = fullId hc sg.g root := by
+  obtain ⟨L, hL, _, hlook⟩ := fromParameters_serialize fl lib sg root hwf hr hok
+  obtain ⟨_, hiff, hlt, _⟩ := serialOrder_spec sg.g [root] hwf (by simpa using hr)
+  refine ⟨L, hL, ?_⟩
+  intro g' hsz hload hkeep
+  classical
+  apply fullId_congr_on hc sg.g g' S hsz.symm hclosed hdflt
+  · intro n hn
+    by_cases hN : Needed sg.g [root] n
+    · have hmem := (hiff n).2 hN
+      rw [hload n hN, toGraph_node L _ n (hlt n hmem), hlook n hmem]
+      apply reloadNode_same
+      · rcases hm with hm | hm
+        · exact Or.inl hm
+        · exact Or.inr (hm n hN)
+      · rcases hi with hi | hi
+        · exact Or.inl hi
+        · exact Or.inr (hi n hN)
+    · exact hkeep n hn hN
+  · exact hS root ⟨root, List.mem_singleton.2 rfl, Reach.refl root⟩
 
 end XpmVerif.Serial
